@@ -38,6 +38,7 @@ type c31Input struct {
 	SnapOnClose bool `json:"snap_on_close,omitempty"`
 	Writes    bool   `json:"writes,omitempty"` // close: at least one applied write since the last snapshot
 	Holder    string `json:"holder,omitempty"` // close: raw (a CheckAndSet owner) | backup (a real Store.Backup into a slow client)
+	Fault     string `json:"fault,omitempty"`  // after: none | first-write | mid-copy (the holder's destination writer fails)
 }
 
 const c31Never = 1000000000
@@ -589,6 +590,140 @@ func c31RunClose(t *testing.T, w *vWriter, in c31Input, srcT, srcI int64, srcErr
 	w.Emit(vc)
 }
 
+// ---------------------------------------------------------------- (d) holder returned => gate free
+
+// c31FaultWriter is a backup destination that fails (a client that went away): at the first
+// Write, or after some bytes.  At its first Write it records who owns the snapshot gate.
+type c31FaultWriter struct {
+	failAfter int // bytes accepted before failing; < 0: never fails
+	n         int
+	first     func()
+	once      sync.Once
+}
+
+func (f *c31FaultWriter) Write(p []byte) (int, error) {
+	f.once.Do(f.first)
+	if f.failAfter >= 0 && f.n+len(p) > f.failAfter {
+		return 0, errors.New("verif: destination went away")
+	}
+	f.n += len(p)
+	return len(p), nil
+}
+
+// c31RunAfter: every operation the driver can make take the snapshot gate (backup in each format,
+// a user snapshot), normally and with its destination failing at the first write / mid-copy.
+// Whatever the operation returns, once it HAS returned the gate must be free, and a Close issued
+// then must take the gate at once and succeed (it must not sit out the wait limit).
+func c31RunAfter(t *testing.T, w *vWriter, in c31Input, srcT, srcI int64, srcErr error) {
+	key := fmt.Sprintf("after:%s:%s", in.Holder, in.Fault)
+	if srcErr != nil {
+		return
+	}
+	s, done, err := c31OpenStore(t, false)
+	if err != nil {
+		w.Emit(VCase{Input: in, Key: key, Inconcl: err.Error()})
+		return
+	}
+	defer done()
+	closed := false
+	defer func() {
+		if !closed {
+			s.snapshotCAS.End()
+			s.NoSnapshotOnClose = true
+			s.Close(true)
+		}
+	}()
+	if err := c31Write(s, `CREATE TABLE foo (id INTEGER NOT NULL PRIMARY KEY, name TEXT)`); err != nil {
+		w.Emit(VCase{Input: in, Key: key, Inconcl: "write: " + err.Error()})
+		return
+	}
+	filler := strings.Repeat("x", 2000)
+	for i := 0; i < 100; i++ { // ~200 KiB, so that a copy takes several writes
+		if err := c31Write(s, fmt.Sprintf(`INSERT INTO foo(name) VALUES("%s")`, filler)); err != nil {
+			w.Emit(VCase{Input: in, Key: key, Inconcl: "write: " + err.Error()})
+			return
+		}
+	}
+	ownerDuring := "?"
+	fw := &c31FaultWriter{failAfter: -1, first: func() { ownerDuring = s.snapshotCAS.Owner() }}
+	switch in.Fault {
+	case "first-write":
+		fw.failAfter = 0
+	case "mid-copy":
+		fw.failAfter = 40000
+	}
+	var holderErr error
+	switch in.Holder {
+	case "backup-binary":
+		holderErr = s.Backup(context.Background(), backupRequestBinary(true, false, false), fw)
+	case "backup-binary-gz":
+		holderErr = s.Backup(context.Background(), backupRequestBinary(true, false, true), fw)
+	case "backup-binary-vacuum":
+		holderErr = s.Backup(context.Background(), backupRequestBinary(true, true, false), fw)
+	case "backup-sql":
+		holderErr = s.Backup(context.Background(), backupRequestSQL(true), fw)
+	case "backup-delete":
+		holderErr = s.Backup(context.Background(), backupRequestDelete(true, false, false), fw)
+	case "snapshot":
+		ownerDuring = "snapshot"
+		holderErr = s.Snapshot(0)
+	default:
+		panic("bad holder " + in.Holder)
+	}
+	ownerAfter := s.snapshotCAS.Owner()
+	vc := VCase{Input: in, Key: key, Nontrivial: ownerDuring != "" && ownerDuring != "?" && in.Fault != "none",
+		Tags: []string{"after", "after-" + in.Holder, "after-fault-" + in.Fault}}
+	if in.Fault != "none" && in.Holder != "snapshot" && holderErr == nil && fw.n == 0 {
+		// (nothing was written at all: the fault could not strike)
+		vc.Tags = append(vc.Tags, "after-fault-not-reached")
+	}
+	// the gate history as far as it is visible: taken by the operation (seen at its first write), then its End
+	if ownerDuring != "" && ownerDuring != "?" {
+		vc.Coq = fmt.Sprintf("CaseGate [(CBegin 0%%nat %s, Ok, %s); (CEnd 0%%nat, Ok, %s)]", coqStr(ownerDuring), coqStr(ownerDuring), coqStr(ownerAfter))
+	}
+	// Close now: nobody holds the gate, it must get it at once
+	start := time.Now()
+	var tookGateAt time.Duration = -1
+	stop := make(chan struct{})
+	var wg sync.WaitGroup
+	wg.Add(1)
+	go func() {
+		defer wg.Done()
+		for {
+			if s.snapshotCAS.Owner() == "close" {
+				tookGateAt = time.Since(start)
+				return
+			}
+			select {
+			case <-stop:
+				return
+			default:
+				time.Sleep(200 * time.Microsecond)
+			}
+		}
+	}()
+	cerr := s.Close(true)
+	closeTook := time.Since(start)
+	close(stop)
+	wg.Wait()
+	closed = cerr == nil
+	switch {
+	case ownerAfter != "":
+		vc.OracleFail = fmt.Sprintf("%s (destination fault: %s) returned %v, yet the snapshot gate is still owned by %q; Close then returned %v after %s", in.Holder, in.Fault, holderErr, ownerAfter, cerr, closeTook)
+		vc.Sig = "C31:gate-held-after-holder-returned"
+	case cerr != nil:
+		vc.OracleFail = fmt.Sprintf("nobody holds the gate after %s returned, yet Close failed after %s: %v", in.Holder, closeTook, cerr)
+		vc.Sig = "C31:close-failed-before-limit"
+	case tookGateAt > time.Second || (tookGateAt < 0 && closeTook > 5*time.Second):
+		vc.OracleFail = fmt.Sprintf("nobody holds the gate after %s returned, yet Close got it only after %s (returned after %s)", in.Holder, tookGateAt, closeTook)
+		vc.Sig = "C31:close-slow-after-release"
+	case in.Fault == "none" && holderErr != nil && !errors.Is(holderErr, ErrNothingNewToSnapshot):
+		vc.OracleFail = fmt.Sprintf("%s without any fault failed: %v", in.Holder, holderErr)
+		vc.Sig = "C31:holder-broken"
+	}
+	w.Emit(vc)
+}
+
 // ---------------------------------------------------------------- (c) the gate's caller discipline
 
 // c31RunGate: only the caller of a successful Begin calls End.  While another owner holds the
@@ -677,6 +812,8 @@ func TestVerif_C31(t *testing.T) {
 			c31RunClose(t, w, in, srcT, srcI, srcErr)
 		case "gate":
 			c31RunGate(t, w, in)
+		case "after":
+			c31RunAfter(t, w, in, srcT, srcI, srcErr)
 		default:
 			c31RunPrim(w, in)
 		}
@@ -752,5 +889,21 @@ func TestVerif_C31(t *testing.T) {
 		defer wg.Done()
 		c31RunGate(t, w, c31Input{Kind: "gate"})
 	}()
+	// (d) holder returned => gate free, for every holder the driver can run, with destination faults
+	for _, h := range []string{"backup-binary", "backup-binary-gz", "backup-binary-vacuum", "backup-sql", "backup-delete", "snapshot"} {
+		for _, f := range []string{"none", "first-write", "mid-copy"} {
+			if h == "snapshot" && f != "none" {
+				continue
+			}
+			in := c31Input{Kind: "after", Holder: h, Fault: f}
+			wg.Add(1)
+			go func() {
+				defer wg.Done()
+				closeSem <- struct{}{}
+				defer func() { <-closeSem }()
+				c31RunAfter(t, w, in, srcT, srcI, srcErr)
+			}()
+		}
+	}
 	wg.Wait()
 }
